@@ -71,6 +71,7 @@ type Runner struct {
 	quit        chan struct{}
 	t           *testing.T
 	yieldClient *Client
+	ctxSeq      atomic.Int64
 }
 
 const Bucket = "leaders"
@@ -300,12 +301,13 @@ func (r *Runner) build(i *inst) error {
 	}
 	i.el = el
 	el.OnPromote(func(ctx context.Context, token string) {
-		rec := &ctxRec{inst: is.Name, token: token, ctx: ctx, blocking: is.BlockPromote}
+		// (the entry is reported first: nothing slow before it)
+		id := int(r.ctxSeq.Add(1))
+		r.add(Event{Kind: "cb.promote", Inst: is.Name, Token: token, Ctx: id, S: fmt.Sprint(ctx.Err() != nil)})
+		rec := &ctxRec{inst: is.Name, token: token, ctx: ctx, blocking: is.BlockPromote, id: id}
 		r.mu.Lock()
-		rec.id = len(r.ctxs) + 1
 		r.ctxs = append(r.ctxs, rec)
 		r.mu.Unlock()
-		r.add(Event{Kind: "cb.promote", Inst: is.Name, Token: token, Ctx: rec.id, S: fmt.Sprint(ctx.Err() != nil)})
 		if is.BlockPromote {
 			select {
 			case <-ctx.Done():
